@@ -10,7 +10,6 @@ import (
 	"strings"
 	"testing"
 
-	"verifharness/internal/rp"
 	"verifharness/internal/stats"
 )
 
@@ -132,8 +131,6 @@ func TestC18_FuzzSeeds(t *testing.T) {
 	if replayed(t, rec) {
 		return
 	}
-	var rc Case
-	_ = rp.ReplayCase(&rc)
 	shard, shards := stats.Shard()
 	for i, s := range fuzzSeeds() {
 		if i%shards != shard {
